@@ -136,6 +136,24 @@ def run(ctx):
             chunk_names[k].append(name)
             names.append(name)
             numeric_oracle(ctx, r, case, positions)
+            if len(set(a['type'] for a in case['assignment'])) > 1:
+                # the same layout, pitch and outer duct with ONE mesh everywhere must have the same total gap area
+                import copy
+                c2 = copy.deepcopy(case)
+                c2['types'] = {'t0': c2['types']['t0']}
+                for a in c2['assignment']:
+                    a['type'] = 't0'
+                gi.random_power(random.Random(1), c2, n_terms=1, components=("pins",))
+                try:
+                    inp2, r2 = gi.build_reactor(c2, d)
+                    a1, a2 = float(r.core.gap_params['total area']), float(r2.core.gap_params['total area'])
+                    ctx.count("mixed_vs_uniform_area_pairs")
+                    if abs(a1 - a2) > 1e-10 * a2:
+                        ctx.violation("c09-area-depends-on-mesh", "total gap flow area is %.9g m2 with the mixed meshes %s but %.9g m2 when "
+                                      "every position holds the same assembly type" % (a1, [a['type'] for a in case['assignment']], a2),
+                                      case=case, positions=positions)
+                except SystemExit:
+                    ctx.count("uniform_variant_rejected")
             key = (tuple(positions), round(case['core']['assembly_pitch'], 12), round(r.core.duct_oftf, 12))
             areas.setdefault(key, []).append(float(r.core.gap_params['total area']))
             if ctx.evals <= 3:
